@@ -171,6 +171,7 @@ def parseMove (w : List String) : Option (String × Move) :=
   | ["sync", "pods"] => some ("", .listerSync true false)
   | ["sync", "apps"] => some ("", .listerSync false true)
   | ["sync", "all"] => some ("", .listerSync true true)
+  | ["fipsync"] => some ("", .fipSync)
   | ["drop", i] => do let n ← i.toNat?; pure ("", .dropEvent n)
   | ["filter", ns, name, nodes, first, pick, fault] => do
     let f ← parseOptNat first; let p ← parseOptNat pick; let k ← fault.toNat?
